@@ -2,6 +2,7 @@ import LinOp.C16.Proofs
 import LinOp.C16.ProofsWeak
 import LinOp.C16.Skeleton
 import LinOp.C16.ProofsPSD
+import LinOp.C16.ProofsSkSem
 import LinOp.Generated.C16Consts
 import Mathlib.Data.Matrix.Mul
 import Mathlib.Data.Matrix.Diagonal
@@ -721,6 +722,102 @@ theorem skeleton_trace_early (b : Bool) (k : Nat) :
 theorem psc_input_unchanged_generated (base : Nat) :
     (psdSafeCholesky ops { base := base, clones := C16.clones, jitterNewBound := C16.jitterNewBound } env args A).input = A :=
   psc_input_unchanged ops _ env args A gen_clones.1
+
+
+/-! ### State semantics of the skeleton (extension session 5): translated body ⇒ model, by theorem
+
+`LinOp/C16/SkSem.lean` gives every statement role a meaning as a transformer of the Python-level state (locals, the aliasing of
+`Aprime` with the caller's tensor, call counter, warning log) and runs ANY skeleton in the order of its statements (`runSkeleton`).
+The theorems below are unbounded: every batch (length and content), every `cholesky_ex` (= every info history), every NaN test,
+every `jitter`, `max_tries`, base, settings/trace state, `out`. -/
+
+/-- **Running the pinned skeleton statement by statement IS the model**: for every input the state-semantics interpreter applied
+to `expectedCore b` terminates without getting stuck and produces exactly the `Outcome` (result / error, `cholesky_ex` calls,
+warning log, final `Aprime`, caller's tensor, `out` buffer) of `psdSafeCholeskyCore` with `clones := true`. -/
+theorem skeleton_semantics_eq_model (base : Nat) (b : Bool) :
+    runSkeleton ops base env args A (expectedCore b) =
+      some (psdSafeCholeskyCore ops { base := base, clones := true, jitterNewBound := b } env args A) := by
+  unfold runSkeleton
+  rw [parse_expectedCore]
+  exact run_expectedProg ops base env args A b true
+
+/-- **The semantics is sensitive to the statements** (it is not a constant function of the skeleton): the same skeleton without its
+`clone` statement runs to the model with `clones := false` — the one for which `psc_no_clone_counterexample` shows that the
+caller's tensor is modified. -/
+theorem skeleton_noclone_semantics_eq_model (base : Nat) (b : Bool) :
+    runSkeleton ops base env args A (expectedCoreNoClone b) =
+      some (psdSafeCholeskyCore ops { base := base, clones := false, jitterNewBound := b } env args A) := by
+  unfold runSkeleton
+  rw [parse_expectedCoreNoClone]
+  exact run_expectedProg ops base env args A b false
+
+/-- **Translated body ⇒ model** (the analogue of C17's `model_refines_translated_bodies`): the skeleton that the `ast` translator
+extracted from today's `_psd_safe_cholesky`, executed by the state-semantics interpreter with the extracted base, is the model
+instantiated with the extracted constants — the object all `psc_*` theorems speak about.  Uses the generated obligations
+`gen_skeleton_core` and `gen_clones` only to identify the extracted skeleton; everything else is proof. -/
+theorem model_refines_translated_body :
+    runSkeleton ops C16.base env args A C16.coreSkeleton =
+      some (psdSafeCholeskyCore ops { base := C16.base, clones := C16.clones, jitterNewBound := C16.jitterNewBound } env args A) := by
+  rw [gen_skeleton_core, gen_clones.1]
+  exact skeleton_semantics_eq_model ops env args A C16.base C16.jitterNewBound
+
+/-- **Running the pinned WRAPPER skeleton is `psdSafeCholesky`**: the nested `if upper: (if out: in-place transpose of out / else:
+transpose of the result)` and the `return`, interpreted statement by statement on the outcome of the core call, give exactly the
+model of the public function — for every outcome of the core (returned or raised), `upper`, `out`. -/
+theorem wrapper_semantics_eq_model :
+    runWrapperSk ops args expectedWrapper (psdSafeCholeskyCore ops c env args A) = some (psdSafeCholesky ops c env args A) := by
+  rw [wrapper_semantics_of_core ops args _ (core_outBuf_none ops env args A c)]
+  rfl
+
+/-- **Both translated bodies ⇒ model**: interpret the extracted skeleton of `_psd_safe_cholesky`, feed its outcome to the interpreted
+extracted skeleton of `psd_safe_cholesky`: the result is `psdSafeCholesky` with the extracted constants, for every input. -/
+theorem model_refines_translated_bodies :
+    (runSkeleton ops C16.base env args A C16.coreSkeleton).bind (runWrapperSk ops args C16.wrapperSkeleton) =
+      some (psdSafeCholesky ops { base := C16.base, clones := C16.clones, jitterNewBound := C16.jitterNewBound } env args A) := by
+  rw [model_refines_translated_body, gen_skeleton_wrapper]
+  exact wrapper_semantics_eq_model ops _ env args A
+
+/-- the wrapper interpreter really executes and distinguishes the branches: `upper` with and without `out=` (transpose = negation
+here, to make it visible), and a wrapper that transposes `out` in place although no `out=` was passed is stuck. -/
+example :
+    let ops : Ops Int Int Int :=
+      { cholEx := fun a => (a, if a > 0 then 0 else 1), hasNan := fun _ => false, addDiag := fun a x => a + x, transposeF := fun x => -x }
+    let env : Env Int := { settingsJitter := 1, settingsMaxTries := 3, traceMode := false }
+    let run := fun (args : Args Int) (sk : List (Nat × String)) =>
+      ((runSkeleton ops 10 env args [4, -5, 0] C16.coreSkeleton).bind (runWrapperSk ops args sk)).map fun o => (o.result, o.outBuf)
+    run { upper := true } C16.wrapperSkeleton = some (.ok [-4, -5, -1], none) ∧
+    run { upper := true, out := true } C16.wrapperSkeleton = some (.ok [-4, -5, -1], some [-4, -5, -1]) ∧
+    run { out := true } C16.wrapperSkeleton = some (.ok [4, 5, 1], some [4, 5, 1]) ∧
+    run { upper := true } [(0, "core-call(forward-all)"), (0, "transpose-out-inplace"), (0, "return-result")] = none := by
+  decide +kernel
+
+/-- Consequence stated purely about the TRANSLATED body: whatever the input, executing the extracted statements terminates (never
+stuck, never falls off the end) with an outcome whose caller-side tensor is the input. -/
+theorem translated_body_input_unchanged :
+    ∃ o, runSkeleton ops C16.base env args A C16.coreSkeleton = some o ∧ o.input = A := by
+  refine ⟨_, model_refines_translated_body ops env args A, ?_⟩
+  rw [← wrapper_input]; exact psc_input_unchanged_generated ops env args A C16.base
+
+/-- The interpreter really executes: the 3-member `Int` batch of the example below, run through the EXTRACTED skeleton. -/
+example :
+    (runSkeleton (M := Int) (F := Int) (α := Int)
+      { cholEx := fun a => (a, if a > 0 then 0 else 1), hasNan := fun _ => false, addDiag := fun a x => a + x, transposeF := id }
+      10 { settingsJitter := 1, settingsMaxTries := 3, traceMode := false } {} [4, -5, 0] C16.coreSkeleton).map
+        (fun o => (o.result, o.calls, o.warns, o.work, o.input)) = some (.ok [4, 5, 1], 3, [1, 10], [4, 5, 1], [4, -5, 0]) := by
+  decide +kernel
+
+/-- … and a skeleton whose statements are in another order means something else: with the `clone` removed the caller's tensor is
+written; with the warning placed before the schedule the interpreter is stuck (`jitter_new` unbound when max_tries-independent init is absent). -/
+example :
+    (runSkeleton (M := Int) (F := Int) (α := Int)
+      { cholEx := fun a => (a, if a > 0 then 0 else 1), hasNan := fun _ => false, addDiag := fun a x => a + x, transposeF := id }
+      10 { settingsJitter := 1, settingsMaxTries := 3, traceMode := false } {} [4, -5, 0] (expectedCoreNoClone true)).map
+        (fun o => o.input) = some [4, 5, 1] ∧
+    (runSkeleton (M := Int) (F := Int) (α := Int)
+      { cholEx := fun a => (a, if a > 0 then 0 else 1), hasNan := fun _ => false, addDiag := fun a x => a + x, transposeF := id }
+      10 { settingsJitter := 1, settingsMaxTries := 3, traceMode := false } {} [4, -5, 0]
+      ((expectedCore false).filter fun e => e.2 != "sched")).isNone = true := by
+  decide +kernel
 
 /-! ### The hypotheses are satisfiable by non-trivial instances -/
 
